@@ -59,7 +59,10 @@ func VH_C10_ChildMapWithRealCollisions() {
 		}
 		h = c
 	}
-	keys := []uint64{1, 257, 513, 2}
+	// 1, 257, 513 collide on every level; 2, 3, 4 do not (with values near the
+	// element limit three or four of them make the CHILD span several slabs, so
+	// that reading it through the parent goes through an index root)
+	keys := []uint64{1, 257, 513, 2, 3, 4}
 	present := map[uint64]uint64{}
 	tag := uint64(100)
 	nops := vhParam("ops", 3)
@@ -112,6 +115,9 @@ func VH_C10_ChildMapWithRealCollisions() {
 			} else {
 				vhAssert(vhIsKeyNotFound(err), "absent key through the parent")
 			}
+		}
+		if _, multi := h.root.(*MapMetaDataSlab); multi {
+			vhReach("witness: the child map spans several slabs")
 		}
 		if !h.Inlined() {
 			wasStandalone = true
